@@ -12,7 +12,16 @@
      - (consequence of the last two) two rings that differ in one node
        differ only in keys of that node                                   NeighbourOK
    Several ring instances (same hash function, same probe keys) live in one behaviour so
-   that history independence is checked across differently built rings.                  *)
+   that history independence is checked across differently built rings.
+
+   What a node IS: a value -- a string, a number of any Go numeric type, a Stringer.  Node
+   ids 1..nn stand for NAMES (RingRepr.tla: a number's mathematical value in decimal, a
+   string's / Stringer's text); `vals` describes, for every node, the typed Go values
+   ("forms") the driver uses for it: [t |-> Go type, neg |-> sign, mag |-> magnitude digits or
+   the text].  ValsOK demands that the numbering follows the names: all forms of a node
+   carry one name, two nodes never share a name, whatever their types -- so uint64(2^64-7),
+   int64(-7) and 7 are three nodes and a ring that treats two of them as one breaks the laws
+   below.  (A driver that does not describe its nodes -- string-only clusters -- logs none.) *)
 EXTENDS RingProps
 
 VARIABLES
@@ -21,17 +30,42 @@ VARIABLES
   caps,     \* instance |-> replica cap (ConsistentHash.replicas)
   members,  \* instance |-> member map
   assign,   \* instance |-> current assignment of the probe keys
-  memo      \* shape |-> assignment first observed with it (history variable)
+  memo,     \* shape |-> assignment first observed with it (history variable)
+  vals      \* node |-> form |-> description of the Go value (<<>>: not described)
 
-rvars == <<nodeset, nk, caps, members, assign, memo>>
+rvars == <<nodeset, nk, caps, members, assign, memo, vals>>
 
 Live == DOMAIN caps
 Empty == <<>>
 
 RInit == nodeset = {} /\ nk = 0 /\ caps = Empty /\ members = Empty /\ assign = Empty /\ memo = Empty
+         /\ vals = Empty
 
-PReset(nn, k) ==
-  /\ nodeset' = 1..nn /\ nk' = k
+\* ---- node identity (see RingRepr.tla) ----
+Signed   == {"int", "int8", "int16", "int32", "int64"}
+Unsigned == {"uint", "uint8", "uint16", "uint32", "uint64"}
+Floats   == {"float32", "float64"}
+Texts    == {"string", "stringer", "pstringer"}
+\* indirections: a pointer to a number is the number
+GoTypes  == Signed \cup Unsigned \cup Floats \cup Texts \cup {"*int", "*int64", "*uint64", "*float64"}
+
+Canon(v) == IF v.neg THEN "-" \o v.mag ELSE v.mag          \* the node's name
+
+ValueOK(v) ==
+  /\ v.t \in GoTypes /\ v.neg \in BOOLEAN /\ v.mag # ""
+  /\ v.t \in Unsigned \cup Texts \cup {"*uint64"} => ~v.neg     \* a text's sign is part of the text
+  /\ v.neg => v.mag # "0"                                       \* one zero
+
+ValsOK(vs, nn) ==
+  \/ vs = Empty
+  \/ /\ DOMAIN vs = 1..nn
+     /\ \A n \in 1..nn : /\ Len(vs[n]) >= 1
+                         /\ \A f \in DOMAIN vs[n] : ValueOK(vs[n][f]) /\ Canon(vs[n][f]) = Canon(vs[n][1])
+     /\ \A n1, n2 \in 1..nn : n1 # n2 => Canon(vs[n1][1]) # Canon(vs[n2][1])
+
+PReset(nn, k, vs) ==
+  /\ ValsOK(vs, nn)
+  /\ nodeset' = 1..nn /\ nk' = k /\ vals' = vs
   /\ caps' = Empty /\ members' = Empty /\ assign' = Empty /\ memo' = Empty
 
 WellFormed(a) == Len(a) = nk
@@ -52,7 +86,7 @@ PNew(i, cap, a) ==
   /\ Observed(Empty, a, {})
   /\ caps' = Put(caps, i, cap) /\ members' = Put(members, i, Empty) /\ assign' = Put(assign, i, a)
   /\ memo' = Remember(memo, Empty, a)
-  /\ UNCHANGED <<nodeset, nk>>
+  /\ UNCHANGED <<nodeset, nk, vals>>
 
 NextMembers(m, cap, n, kind, arg, f) ==
   IF kind = "remove" THEN DelMember(m, n) ELSE AddMember(m, n, Eff(cap, kind, arg), f)
@@ -61,6 +95,7 @@ NextMembers(m, cap, n, kind, arg, f) ==
 \* after which the probe keys were looked up: assignment a, returned (node, form) pairs fs
 POp(i, n, kind, arg, f, a, fs) ==
   /\ i \in Live /\ n \in nodeset
+  /\ vals # Empty => f \in DOMAIN vals[n]
   /\ kind \in {"add", "rep", "wt", "remove"}
   /\ LET m2 == NextMembers(members[i], caps[i], n, kind, arg, f) IN
        /\ Observed(m2, a, fs)
@@ -68,7 +103,7 @@ POp(i, n, kind, arg, f, a, fs) ==
        /\ members' = [members EXCEPT ![i] = m2]
        /\ assign' = [assign EXCEPT ![i] = a]
        /\ memo' = Remember(memo, m2, a)
-  /\ UNCHANGED <<nodeset, nk, caps>>
+  /\ UNCHANGED <<nodeset, nk, caps, vals>>
 
 \* looking the keys up again without any operation in between changes nothing
 PProbe(i, a, fs) ==
@@ -90,13 +125,13 @@ PBuild(i, cap, ops, a, fs) ==
        /\ Observed(m2, a, fs)
        /\ caps' = Put(caps, i, cap) /\ members' = Put(members, i, m2) /\ assign' = Put(assign, i, a)
        /\ memo' = Remember(memo, m2, a)
-  /\ UNCHANGED <<nodeset, nk>>
+  /\ UNCHANGED <<nodeset, nk, vals>>
 
 PDrop(i) ==
   /\ i \in Live
   /\ caps' = Restrict(caps, Live \ {i}) /\ members' = Restrict(members, Live \ {i})
   /\ assign' = Restrict(assign, Live \ {i})
-  /\ UNCHANGED <<nodeset, nk, memo>>
+  /\ UNCHANGED <<nodeset, nk, memo, vals>>
 
 \* ---- invariants of the machine (hold by construction; evaluated on every recorded state) ----
 MemberOnly == \A i \in Live : MemberOnlyOK(members[i], assign[i])
